@@ -56,7 +56,14 @@ type markerWriter struct {
 func (w *markerWriter) Write(p []byte) (int, error) {
 	w.mu.Lock()
 	w.buf = append(w.buf, p...)
+	// The tasks share this writer and a command's text and its line terminator may arrive in separate
+	// calls, so lines of different tasks can run into each other: the trigger is counted as a token in
+	// the byte stream, not per line.
+	w.seen += bytes.Count(p, []byte(w.trigger))
 	var fire bool
+	if w.trigger != "" && w.seen >= w.need && !w.fired {
+		w.fired, fire = true, true
+	}
 	for {
 		i := bytes.IndexByte(w.buf, '\n')
 		if i < 0 {
@@ -64,12 +71,8 @@ func (w *markerWriter) Write(p []byte) (int, error) {
 		}
 		line := string(w.buf[:i])
 		w.buf = w.buf[i+1:]
-		w.markers = append(w.markers, line)
-		if strings.HasSuffix(line, w.trigger) {
-			w.seen++
-			if w.seen == w.need && !w.fired {
-				w.fired, fire = true, true
-			}
+		if line != "" {
+			w.markers = append(w.markers, line)
 		}
 	}
 	w.mu.Unlock()
@@ -102,6 +105,7 @@ func cancelChild() {
 		if c.Twice {
 			n = 2
 		}
+		fmt.Fprintln(os.Stderr, "CANCEL-CALLED")
 		for i := 0; i < n; i++ {
 			if c.Via == "scheduler" && sd != nil {
 				sd.Cancel()
@@ -217,6 +221,10 @@ func runCancelProc(c cpCase) string {
 	case <-time.After(40 * time.Second):
 		cmd.Process.Kill()
 		cleanup()
+		if !strings.Contains(errb.String(), "CANCEL-CALLED") {
+			// the harness never reached its injection point: nothing was cancelled, nothing to judge
+			return "NOTJUDGED:cancellation was not injected within 40 s: " + firstFew(out.String())
+		}
 		return "KIND:process-hangs:the process was still running 40 s after start (Cancel / Schedule / Run did not return); a normal case takes < 3 s"
 	}
 	text := out.String() + errb.String()
@@ -296,6 +304,11 @@ func cancelProcUnit(res *common.Result) {
 			os.Exit(2)
 		}
 		if d == "" {
+			return false
+		}
+		if strings.HasPrefix(d, "NOTJUDGED:") {
+			res.Notes = append(res.Notes, fmt.Sprintf("%+v: %s", c, d))
+			res.Exhaustive, res.Capped = false, "a case could not be set up and was not judged"
 			return false
 		}
 		parts := strings.SplitN(d, ":", 3)
